@@ -2,6 +2,7 @@
 package c03
 
 import (
+	"fmt"
 	"encoding/json"
 	"testing"
 
@@ -78,6 +79,32 @@ func check(t rep.Fataler, c sim.Case) {
 	rep.Eval(key, labels...)
 	if key != "" && rep.WantSample() {
 		rep.Sample(map[string]any{"case": c, "order": r.Order, "final": r.Final})
+	}
+}
+
+// TestExhaustive: small-scope exhaustive tier. Every DAG on <= 2 (quick) / <= 3
+// (thorough) steps x every declaration order x continueOn x outcome, under
+// FIFO, LIFO and all-at-once completion schedules, sharded by index.
+func TestExhaustive(t *testing.T) {
+	shard, nsh := rep.EnvInt("VERIF_SHARD", 0), rep.EnvInt("VERIF_NSHARDS", 1)
+	maxN := 2
+	if rep.Thorough() {
+		maxN = 3
+	}
+	total := 0
+	for n := 1; n <= maxN; n++ {
+		for sched := 0; sched < 3; sched++ {
+			sim.Enumerate(n, sched, func(i int, c sim.Case) {
+				total++
+				if i%nsh != shard {
+					return
+				}
+				check(t, c)
+			})
+		}
+	}
+	if shard == 0 {
+		rep.ExhaustiveSpace(fmt.Sprintf("every DAG on 1..%d steps x declaration order x continueOn{none,failure,skipped,both} x outcome{ok,fail,precondition unmet} x 3 canonical schedules (%d cases)", maxN, total))
 	}
 }
 
